@@ -231,6 +231,8 @@ def mutation_table():
         ("quaternion_schur_unified(rayleigh)", lambda X: d.schur.quaternion_schur_unified(X, variant="rayleigh", max_iter=20), [Sq]),
         ("quaternion_schur_unified(aed)", lambda X: d.schur.quaternion_schur_unified(X, variant="aed", max_iter=20), [Sq]),
         ("tensor_unfold", lambda X: t.tensor_unfold(X, 1), [T3]),
+        ("tensor_unfold(0)", lambda X: t.tensor_unfold(X, 0), [T3]),
+        ("tensor_unfold(2)", lambda X: t.tensor_unfold(X, 2), [T3]),
         ("tensor_fold", lambda X: t.tensor_fold(t.tensor_unfold(X, 2), 2, X.shape), [T3]),
         ("QGMRES.solve", lambda X, y: s.QGMRESSolver(tol=1e-8).solve(X, y), [Sq + 3 * np.eye(4)[:, :, None] * [1.0, 0, 0, 0], b]),
         ("QGMRES.solve(left_lu)", lambda X, y: s.QGMRESSolver(tol=1e-8, preconditioner="left_lu").solve(X, y), [Sq + 3 * np.eye(4)[:, :, None] * [1.0, 0, 0, 0], b]),
@@ -368,7 +370,7 @@ def _relayout(a, how):
 
 DIRECT = ("quat_matmat", "quat_hermitian", "quat_frobenius_norm", "matrix_norm(2)", "real_expand", "quaternion_to_complex_adjoint",
           "rank", "det(Dieudonne)", "ishermitian", "classical_qsvd_full", "classical_qsvd", "qr_qua", "quaternion_lu(2)", "quaternion_lu(3)",
-          "hessenbergize", "tridiagonalize", "tensor_unfold", "tensor_fold", "quat_null_space")
+          "hessenbergize", "tridiagonalize", "tensor_unfold", "tensor_unfold(0)", "tensor_unfold(2)", "tensor_fold", "quat_null_space")
 
 
 def _layout_events(tid0):
